@@ -28,6 +28,7 @@ def go_run(work, hists, mats):
     if rc != 0 or not os.path.exists(work.path("simout.jsonl")):
         return False, gout, []
     outs = read_jsonl(work.path("simout.jsonl"))
+    note_panics([{"history": json.loads(json.dumps(h, default=lambda b: b.decode("latin1")))} for h in hists], outs)
     return len(outs) == len(hists), gout, outs
 
 
